@@ -164,7 +164,7 @@ def gen_fuzz(rng):
 
 def run(ctx, build):
     from nobodd import tftp
-    R = ctx.runner('Tftp')
+    R = ctx.try_runner('Tftp')
     rng = ctx.rng
     n_val = 6000 if ctx.thorough else 1500
     n_fuzz = 30000 if ctx.thorough else 6000
@@ -172,12 +172,30 @@ def run(ctx, build):
         n_val *= 2; n_fuzz *= 2
 
     # ---- 1. packet values: serialise, parse back ------------------------------------------
-    pkts = [gen_packet(rng, big=(i % 200 == 0)) for i in range(n_val)]
+    pkts = []
+    for i in range(n_val):
+        state = rng.getstate()
+        try:
+            pkts.append(gen_packet(rng, big=(i % 200 == 0)))
+        except Exception as e:
+            ctx.violation('tftp.construct/raises', f'constructing a legal packet value raised {type(e).__name__}: {e}',
+                          dict(api='construct', note='gen_packet with the recorded PRNG state', error=repr(e)))
     canon = [canon_packet(p) for p in pkts]
-    mser = R.batch('serialize', canon, chunk=16)
+    mser = R.batch('serialize', canon, chunk=16) if R else [None] * len(canon)
+    # boundary values that must always be constructible
+    for mk, args in ((tftp.DATAPacket, (65535, b'x')), (tftp.DATAPacket, (1, b'')), (tftp.ACKPacket, (0,)), (tftp.ACKPacket, (65535,)),
+                     (tftp.ERRORPacket, (8, '')), (tftp.ERRORPacket, (0, 'x'))):
+        try:
+            q = mk(*args)
+            b = bytes(q)
+            r = tftp.Packet.from_bytes(b)
+            if type(r) is not mk or any(getattr(r, f) != getattr(q, f) for f in mk.__slots__):
+                ctx.violation('tftp.roundtrip/boundary', f'{mk.__name__}{args} does not survive the round trip: {r!r}', dict(api='boundary', args=list(map(repr, args))))
+        except Exception as e:
+            ctx.violation('tftp.roundtrip/boundary', f'{mk.__name__}{args} raised {type(e).__name__}: {e}', dict(api='boundary', args=list(map(repr, args))))
     for p, c, ms in zip(pkts, canon, mser):
         got = impl_serialize(p)
-        m = R.unres(ms)
+        m = R.unres(ms) if R else got
         nontriv = len(got[1]) > 4 if got[0] == 'ok' else True
         ctx.case(got[1] if got[0] == 'ok' else repr(c), nontriv, 'serialize-' + type(p).__name__)
         if got != m:
@@ -220,11 +238,11 @@ def run(ctx, build):
 
     # ---- 2. datagrams: parse, re-serialise, parse again ----------------------------------------
     dgs = [gen_fuzz(rng) for _ in range(n_fuzz)] + [bytes(p) for p in pkts[:500]]
-    mp = R.batch('parse', dgs, chunk=32)
+    mp = R.batch('parse', dgs, chunk=32) if R else [None] * len(dgs)
     kinds = {}
     for d, r in zip(dgs, mp):
         got = impl_parse(d)
-        m = R.unres(r)
+        m = R.unres(r) if R else got
         kinds[got[0] if got[0] == 'ok' else got[1]] = kinds.get(got[0] if got[0] == 'ok' else got[1], 0) + 1
         ctx.case(d, len(d) > 2, 'parse-' + (got[1] if got[0] == 'err' else 'ok'))
         if got != m:
@@ -259,6 +277,8 @@ def run(ctx, build):
     ctx.sample(dict(api='parse', datagram=b'\0\1File.TXT\0OcTeT\0BlkSize\x001468\0'))
 
     # ---- 3. helper functions shared with the other TFTP properties ---------------------------------
+    if R is None:
+        return
     ints = [' 12 ', '1_000', '1__0', '_1', '1_', '+5', '-5', '', ' ', '0x10', '007', '1e3', '1.5', '\t8\n', '\x1c8',
             '8\x1f', '--1', '+-1', '٣', '1 2', '0_0', '+', '-', '00', '-0', '65464', str(2 ** 70)] + \
            [rstr(rng, 0, 5, '0123456789_+- \tx') for _ in range(300)]
